@@ -67,6 +67,7 @@ type Arg struct {
 	Rec   *Rec   `json:"rec,omitempty"`
 	KV    []KV   `json:"kv,omitempty"`
 	Spell string `json:"spell"` // db | field : spelling of map / key-value keys
+	Ptr   bool   `json:"ptr,omitempty"` // struct form passed as a pointer
 }
 type Cel struct {
 	Kind string `json:"kind"` // where | attrs | assign | session | ctx
@@ -172,7 +173,12 @@ func argList(as []Arg) []interface{} {
 	for _, a := range as {
 		switch a.Kind {
 		case "struct":
-			out = append(out, toAcct(*a.Rec))
+			v := toAcct(*a.Rec)
+			if a.Ptr { // Attrs(&Acct{...}): pointer to struct, accepted like the value
+				out = append(out, &v)
+			} else {
+				out = append(out, v)
+			}
 		case "map":
 			out = append(out, kvMap(a.KV, a.Spell))
 		case "kv":
@@ -616,7 +622,7 @@ func genArgs(r *lib.Rng, edge bool) []Arg {
 			if edge && r.Chance(1, 4) {
 				c = Rec{}
 			}
-			return Arg{Kind: "struct", Rec: &c, Spell: "db"}
+			return Arg{Kind: "struct", Rec: &c, Spell: "db", Ptr: r.Bool()}
 		case 1:
 			var kv []KV
 			if r.Chance(2, 3) {
@@ -969,7 +975,11 @@ func main() {
 			}
 			if c.Kind == "attrs" || c.Kind == "assign" {
 				for _, x := range c.Args {
-					out.Count("attr_form", c.Kind+":"+x.Kind+":"+x.Spell)
+					form := c.Kind + ":" + x.Kind + ":" + x.Spell
+					if x.Ptr {
+						form += ":pointer"
+					}
+					out.Count("attr_form", form)
 				}
 			}
 			if c.Kind == "where" {
@@ -1071,6 +1081,6 @@ func main() {
 			}
 		}
 	}
-	out.Extra["rule"] = "a case is ONE step on a table of 0..n rows over keys 1..4 (+ rowid-assigned keys): Save(v) | Save(&slice of 2-4 values mixing stored keys, fresh keys and zero keys in any order; the slice handed back is compared element by element and is saved again by a later step; RETURNING dialect) | Create+OnConflict{DoNothing, DoUpdates(subset of name,age,email,updated_at,deleted_at), UpdateAll}(v), optionally conditional (OnConflict.Where = stored age < k on DoUpdates/UpdateAll, OnConflict.TargetWhere = age < k; colliding rows on both sides of the condition) | FirstOrInit | FirstOrCreate, preceded by a chain of Where(struct|map|raw 'age > ?') / Attrs / Assign (struct, map in column or field spelling, key-value; 1-2 arguments) in any order with Session(&Session{}) / WithContext inserted at chain positions; steps are chained into histories of 6..12 steps on the evolving table with soft/hard deletions in between; v is fresh (key 0 or 1..4) or a previously stored row edited. Session/WithContext are inserted at EVERY chain position, also after Attrs/Assign (stream session-after-attrs forces that shape, the fixed finding clone-drops-attrs). Domain: at most one Attrs and one Assign per chain, key-value form alone, two-argument forms in column spelling, Attrs/Assign keys among name/age/email, type-correct values, one inline condition. distinct = distinct (finisher, rule+cols, collision kind, chain form, inline form, RowsAffected, writes, error, table size); non-trivial = the value's key collides with a stored row (Save/upsert) or the chain has a condition and a non-empty Attrs/Assign on a non-empty table (FirstOr*)."
+	out.Extra["rule"] = "a case is ONE step on a table of 0..n rows over keys 1..4 (+ rowid-assigned keys): Save(v) | Save(&slice of 2-4 values mixing stored keys, fresh keys and zero keys in any order; the slice handed back is compared element by element and is saved again by a later step; RETURNING dialect) | Create+OnConflict{DoNothing, DoUpdates(subset of name,age,email,updated_at,deleted_at), UpdateAll}(v), optionally conditional (OnConflict.Where = stored age < k on DoUpdates/UpdateAll, OnConflict.TargetWhere = age < k; colliding rows on both sides of the condition) | FirstOrInit | FirstOrCreate, preceded by a chain of Where(struct|map|raw 'age > ?') / Attrs / Assign (struct by value or by pointer, map in column or field spelling, key-value; 1-2 arguments) in any order with Session(&Session{}) / WithContext inserted at chain positions; steps are chained into histories of 6..12 steps on the evolving table with soft/hard deletions in between; v is fresh (key 0 or 1..4) or a previously stored row edited. Session/WithContext are inserted at EVERY chain position, also after Attrs/Assign (stream session-after-attrs forces that shape, the fixed finding clone-drops-attrs). Domain: at most one Attrs and one Assign per chain, key-value form alone, two-argument forms in column spelling, Attrs/Assign keys among name/age/email, type-correct values, one inline condition. distinct = distinct (finisher, rule+cols, collision kind, chain form, inline form, RowsAffected, writes, error, table size); non-trivial = the value's key collides with a stored row (Save/upsert) or the chain has a condition and a non-empty Attrs/Assign on a non-empty table (FirstOr*)."
 	lib.Must(out.Flush())
 }
